@@ -119,6 +119,14 @@ def check_transform(c):
         if ok:
             res.check(a == -1, 'accuracy.sentinel', dict(base, routine='accuracy'),
                       lambda: 'accuracy against a zero reference returned %r (documented sentinel -1)' % (a,), tg)
+        # missing data: each of the two optional pieces alone, and both
+        gI = space.grid_array(shape)[:4]
+        gy = np.arange(len(gI)) + 1.0
+        for lbl, (Id, yd) in (('no_y', (gI, None)), ('no_I', (None, gy)), ('none', (None, None))):
+            ok, a = _call(res, dict(base, routine='accuracy_on_data.' + lbl), 'accuracy_on_data', lambda: teneva.accuracy_on_data(Y, Id, yd), tg)
+            if ok:
+                res.check(a == -1, 'accuracy_on_data.sentinel', dict(base, routine='accuracy_on_data.' + lbl),
+                          lambda: 'accuracy_on_data with missing data (%s) returned %r (documented sentinel -1)' % (lbl, a), tg)
         ok, a = _call(res, dict(base, routine='accuracy.self'), 'accuracy', lambda: teneva.accuracy(Y, Y), tg)
         if ok:
             res.check(np.isfinite(a), 'accuracy.finite', dict(base, routine='accuracy.self'), lambda: repr(a), tg)
@@ -243,6 +251,37 @@ def check_fit(c):
                     ww = None if w is None else (1.0 + (np.arange(len(y_trn)) % 3))
                     case = dict(base, routine='als', r0=r0, lamb=lamb, w=w)
                     ok, Z = _call(res, case, 'als', lambda: teneva.als(I_trn, y_trn, Y0, nswp=3, info={}, lamb=lamb, w=ww), tg)
+                    if ok:
+                        validate(res, case, Z, shape, 'als', tg)
+            for lbl, kwv in (('I_vld_only', dict(I_vld=grid[:3])), ('y_vld_only', dict(y_vld=np.ones(3)))):
+                case = dict(base, routine='als.' + lbl, r0=r0)
+                inf = {}
+                ok, Z = _call(res, case, 'als', lambda: teneva.als(I_trn, y_trn, Y0, nswp=2, info=inf, lamb=1e-3, **kwv), tg)
+                if ok:
+                    validate(res, case, Z, shape, 'als', tg)
+                    res.check(inf.get('e_vld') == -1, 'e_vld.sentinel', case,
+                              lambda: "als with %s: info['e_vld']=%r (documented sentinel -1 for missing validation data)" % (lbl, inf.get('e_vld')), tg)
+            if r0 == 1:
+                for lbl, kwv in (('I_vld_only', dict(I_vld=grid[:3])), ('y_vld_only', dict(y_vld=np.ones(3)))):
+                    case = dict(base, routine='cross.' + lbl)
+                    inf = {}
+                    ok, Z = _call(res, case, 'cross', lambda: teneva.cross(lambda I: T[tuple(np.asarray(I).T)], Y0, nswp=2, info=inf, **kwv), tg)
+                    if ok:
+                        validate(res, case, Z, shape, 'cross', tg)
+                        res.check(inf.get('e_vld') == -1, 'e_vld.sentinel', case,
+                                  lambda: "cross with %s: info['e_vld']=%r (documented sentinel -1)" % (lbl, inf.get('e_vld')), tg)
+            if d >= 3 and r0 == 2:
+                # initial approximations whose ranks exceed what a core can carry (the orthogonalisation of the adaptive mode shrinks them)
+                for rbig in (max(shape) + 2, 2 * max(shape) + 1):
+                    Yb = space.tt(shape, [1] + [rbig] * (d - 1) + [1], 'gen', seed, tag=33)
+                    for stab in (False, True):
+                        case = dict(base, routine='als.adaptive.overranked', r0=rbig, r=rbig, stab=stab)
+                        ok, Z = _call(res, case, 'als.adaptive',
+                                      lambda: teneva.als(I_trn, y_trn, Yb, nswp=2, info={}, r=rbig, lamb=1e-3, use_stab=stab), tg)
+                        if ok:
+                            validate(res, case, Z, shape, 'als.adaptive', tg)
+                    case = dict(base, routine='als.overranked', r0=rbig)
+                    ok, Z = _call(res, case, 'als', lambda: teneva.als(I_trn, y_trn, Yb, nswp=2, info={}, lamb=1e-3), tg)
                     if ok:
                         validate(res, case, Z, shape, 'als', tg)
             if d >= 3:
